@@ -590,7 +590,8 @@ def _emit_fn(out, spec, repo, canary):
         csig = re.sub(r"\bfn\s+([A-Za-z0-9_]+)", lambda m: "fn " + m.group(1) + "__canary", sig, count=1)
         render(name + "__canary", csig, ["[%s:CANARY] false," % (",".join(props) or "X")], [])
         out.canaries.append(name + "__canary")
-    out.fns[name] = dict(props=props, file=f.file, line=f.line, rules=hits,
+    bare = [n for n in range(1, len(loops) + 1) if n not in spec["loops"]]
+    out.fns[name] = dict(props=props, file=f.file, line=f.line, rules=hits, bare_loops=bare,
                          clauses=[tuple(c) for c in clauses if c[2] != "requires"],
                          requires=[tuple(c) for c in clauses if c[2] == "requires"],
                          real_sig=norm(f.sig))
